@@ -510,6 +510,51 @@ namespace chaiscript {
 
         uint_fast32_t loc = t_loc;
 
+#ifdef CHAISCRIPT_VERIF
+        {
+          const int verif_mode = chaiscript::verif::lookup_cache_mode.load(std::memory_order_relaxed);
+          if (verif_mode == 1) {
+            loc = 0;
+          } else if (verif_mode == 2) {
+            auto &verif_stack = get_stack_data(t_holder);
+            bool verif_found = false;
+            std::size_t verif_dist = 0;
+            std::size_t verif_slot = 0;
+            for (auto se = verif_stack.rbegin(); se != verif_stack.rend() && !verif_found; ++se) {
+              for (auto s = se->begin(); s != se->end(); ++s) {
+                if (s->first == name) {
+                  verif_found = true;
+                  verif_dist = static_cast<std::size_t>(std::distance(verif_stack.rbegin(), se));
+                  verif_slot = static_cast<std::size_t>(std::distance(se->begin(), s));
+                  break;
+                }
+              }
+            }
+            if (loc == 0) {
+              ++chaiscript::verif::hint_fills;
+            } else if ((loc & static_cast<uint_fast32_t>(Loc::is_local)) != 0u) {
+              const std::size_t hd = (loc & static_cast<uint_fast32_t>(Loc::stack_mask)) >> 16;
+              const std::size_t hs = loc & static_cast<uint_fast32_t>(Loc::loc_mask);
+              const bool usable = hd < verif_stack.size() && hs < verif_stack[verif_stack.size() - 1 - hd].size()
+                  && (verif_stack[verif_stack.size() - 1 - hd].begin() + static_cast<std::ptrdiff_t>(hs))->first == name;
+              if (!usable) {
+                ++chaiscript::verif::hint_stale_recovered;
+              } else if (verif_found && verif_dist == hd && verif_slot == hs) {
+                ++chaiscript::verif::hint_agree;
+              } else {
+                ++chaiscript::verif::hint_disagree_nearer_local;
+              }
+            } else {
+              if (verif_found) {
+                ++chaiscript::verif::hint_disagree_global_shadowed;
+              } else {
+                ++chaiscript::verif::hint_agree;
+              }
+            }
+          }
+        }
+#endif
+
         if (loc == 0) {
           auto &stack = get_stack_data(t_holder);
 
